@@ -59,12 +59,21 @@ Bench dimensions added for direction asymmetry / socket behaviour (all generated
   counters; ``PPeer.recv`` reacts to ``NeedRekeyException`` the way ``Transport.run`` does (go
   round the loop again).
 
+* ``ScriptSock(..., sends=...)`` scripts the SEND side the same way: every ``send()`` call takes
+  the next element of the cyclic list ``sends`` - k > 0: accept at most k bytes (a partial send
+  when more was offered), 0: accept everything, -1: raise ``socket.timeout``, -2: raise
+  ``socket.error(EAGAIN)`` (full kernel buffer on a socket with a timeout / non-blocking pipe).
+  The bytes the socket ACCEPTED are the wire (``drain()``; one chunk per ``PPeer.send`` call), so
+  every receiver oracle becomes a wire oracle for ``Packetizer.write_all``.  Strategies for the
+  scripts, long-lived senders and concurrent senders live in ``vlib/pktx.py``.
+
 Only hypothesis supplies randomness (strategies at the bottom); paramiko's own ``os.urandom``
 padding is left alone because no oracle depends on it.
 """
 import errno
 import hashlib
 import socket
+import threading
 import traceback
 
 from vlib import refssh as R
@@ -258,10 +267,31 @@ class ScriptSock:
     late.  Only raised while bytes are buffered (an empty buffer stays end-of-stream) and at
     most ``max_timeouts`` times.  ``timeout_log`` holds, for every raised timeout, the number
     of bytes consumed since the bench last called ``mark()`` (start of the current message);
-    ``consumed`` counts all bytes handed out."""
+    ``consumed`` counts all bytes handed out.
 
-    def __init__(self, frags=(), max_short=3000, timeouts=(), max_timeouts=4000):
+    ``sends`` = cyclic send-side script (empty = accept everything, one chunk per call):
+    k > 0 accept at most k of the offered bytes, 0 accept all of them, -1 raise
+    ``socket.timeout``, -2 raise ``socket.error(EAGAIN)``; at least one entry must accept bytes
+    (a socket that is never ready would make any writer spin for ever).  After
+    ``max_send_events`` partial / not-ready events everything is accepted (cost bound).  Accepted
+    bytes are collected until ``end_packet()`` (called by the bench after each send_message)
+    and become one chunk of ``sent``; ``send_stats`` counts partial sends, not-ready events and
+    not-ready events that directly follow a partial send of the same packet."""
+
+    def __init__(self, frags=(), max_short=3000, timeouts=(), max_timeouts=4000, sends=(), max_send_events=4000):
         self.sent = []
+        self.sends = [int(x) for x in sends]
+        if self.sends and not any(x >= 0 for x in self.sends):
+            raise HarnessBug("send script never accepts a byte")
+        if any(x < -2 for x in self.sends):
+            raise HarnessBug("bad send script entry")
+        self.si = 0
+        self.cur = bytearray()  # bytes accepted since the last end_packet()
+        self.last_short = False  # the previous accepting call took less than offered
+        self.send_events = 0
+        self.max_send_events = max_send_events
+        self.send_stats = {"partial": 0, "notready": 0, "notready-after-partial": 0, "notready-before-first-byte": 0, "eagain-after-partial": 0}
+        self._lk = threading.Lock()  # one send() call is atomic, as on a kernel socket
         self.buf = bytearray()
         self.frags = [int(f) for f in frags]
         self.fi = 0
@@ -293,8 +323,43 @@ class ScriptSock:
     def send(self, data):
         if self.closed:
             raise EOFError()
-        self.sent.append(bytes(data))
-        return len(data)
+        if not self.sends:
+            self.sent.append(bytes(data))
+            return len(data)
+        with self._lk:
+            n = len(data)
+            e = 0
+            if self.send_events < self.max_send_events:
+                e = self.sends[self.si % len(self.sends)]
+                self.si += 1
+            if e < 0:
+                st = self.send_stats
+                self.send_events += 1
+                st["notready"] += 1
+                if self.last_short:
+                    st["notready-after-partial"] += 1
+                    if e == -2:
+                        st["eagain-after-partial"] += 1
+                elif not self.cur:
+                    st["notready-before-first-byte"] += 1
+                if e == -1:
+                    raise socket.timeout("timed out")
+                raise socket.error(errno.EAGAIN, "Resource temporarily unavailable")
+            k = n if e == 0 else min(e, n)
+            self.last_short = k < n
+            if k < n:
+                self.send_events += 1
+                self.send_stats["partial"] += 1
+            self.cur += data[:k]
+            return k
+
+    def end_packet(self):
+        """Bench: one send_message call is over; what the socket accepted is one chunk."""
+        with self._lk:
+            if self.cur:
+                self.sent.append(bytes(self.cur))
+                self.cur = bytearray()
+            self.last_short = False
 
     def recv(self, n):
         self.recv_calls += 1
@@ -335,6 +400,7 @@ class ScriptSock:
         self.buf += data
 
     def take_sent(self):
+        self.end_packet()
         out, self.sent = self.sent, []
         return out
 
@@ -381,13 +447,16 @@ def low_rekey_packetizer(rekey_packets=None, rekey_bytes=None):
 class PPeer:
     kind = "paramiko"
 
-    def __init__(self, role, strict=False, frags=(), ext_info=False, transport_class=None, timeouts=(), rekey_packets=None, rekey_bytes=None):
+    def __init__(self, role, strict=False, frags=(), ext_info=False, transport_class=None, timeouts=(), rekey_packets=None, rekey_bytes=None, sends=()):
         import paramiko
 
         if role not in ("client", "server"):
             raise HarnessBug(role)
         self.role = role
-        self.sock = ScriptSock(frags, timeouts=timeouts)
+        self.sock = ScriptSock(frags, timeouts=timeouts, sends=sends)
+        # with a send script one drain() chunk = everything one send()/send_newkeys() call put on
+        # the wire (send_newkeys may emit NEWKEYS + EXT_INFO): chunks are not counted per packet
+        self.exact_chunks = not self.sock.sends
         cls = transport_class or paramiko.Transport
         if rekey_packets is not None or rekey_bytes is not None:
             self.t = cls(self.sock, packetizer_class=low_rekey_packetizer(rekey_packets, rekey_bytes))
@@ -438,14 +507,20 @@ class PPeer:
 
     # -- sending
     def send_newkeys(self):
-        self.t._activate_outbound()
+        try:
+            self.t._activate_outbound()
+        finally:
+            self.sock.end_packet()
 
     def send(self, payload):
         from paramiko.message import Message
 
         m = Message()
         m.add_bytes(payload)
-        self.t._send_message(m)
+        try:
+            self.t._send_message(m)
+        finally:
+            self.sock.end_packet()
 
     def auth(self):
         self.t._auth_trigger()
@@ -720,7 +795,7 @@ def run_session(case, c2s, s2c):
                     raise
                 raise SessionFailed("pp", "send-raises", "%s:%s" % (exc_bucket(e), fc), "segment %d %s: %r" % (si, dname, e), si, dname)
             chunks = sender.drain()
-            if len(chunks) != len(expected[dname]):
+            if getattr(sender, "exact_chunks", True) and len(chunks) != len(expected[dname]):
                 raise SessionFailed(
                     "pp" if sender.kind == "paramiko" else "refself",
                     "send-chunks",
